@@ -59,7 +59,7 @@ def mutate_mp(rng, body, boundary, layout):
     b2 = b'--' + boundary.encode()
     ops = ['drop_delim', 'dup_delim', 'no_colon', 'empty_value', 'no_name', 'non_utf8_header', 'non_utf8_text',
            'no_terminator', 'garbage_after_close', 'close_early', 'bare_lf', 'flip', 'delete_range', 'insert_random',
-           'truncate', 'cr_after_boundary', 'header_only', 'huge_header', 'dup_terminator', 'no_close', 'unclosed_quote']
+           'truncate', 'cr_after_boundary', 'header_only', 'huge_header', 'dup_terminator', 'no_close', 'unclosed_quote', 'ctl_in_header']
     op = rng.choice(ops)
     n = len(body)
     occ = []
@@ -131,6 +131,12 @@ def mutate_mp(rng, body, boundary, layout):
     if op == 'dup_terminator' and layout:
         hs, he, ds, de = rng.choice(layout)
         return body[:ds] + b'\r\n\r\n' + body[ds:], op
+    if op == 'ctl_in_header' and layout:
+        # a control byte (NUL, VT, DEL, lone CR...) inside a header line of a part, in the main value or in a parameter
+        hs, he, ds, de = rng.choice(layout)
+        if he > hs:
+            j = rng.randrange(hs, he + 1)
+            return body[:j] + rng.choice([b'\x00', b'\x0b', b'\x7f', b'\x01', b'\r', b'\x00\x00']) + body[j:], op
     if op == 'unclosed_quote' and layout:
         # a long quoted parameter value whose closing quote never comes (backslashes and quotes inside)
         hs, he, ds, de = rng.choice(layout)
